@@ -17,7 +17,7 @@ echo "== demo on clean tree (must pass)"
 (cd "$WT" && timeout 600 go test -vet=off -count=1 -run "$RUN" "./$PKG" 2>&1 | tail -5); CLEAN=${PIPESTATUS[0]}
 (cd "$WT" && timeout 600 go test -vet=off -count=1 -run "$RUN" "./$PKG" >/dev/null 2>&1); CLEAN=$?
 echo "== apply patch"
-git -C "$WT" apply "$D/patch.diff" || { echo "PATCH DOES NOT APPLY"; exit 3; }
+git -C "$WT" apply "$D/patch.diff" 2>/dev/null || git -C "$WT" apply --3way "$D/patch.diff" || { echo "PATCH DOES NOT APPLY"; exit 3; }
 echo "== demo on patched tree (must fail)"
 (cd "$WT" && timeout 600 go test -vet=off -count=1 -run "$RUN" "./$PKG" 2>&1 | tail -8)
 (cd "$WT" && timeout 600 go test -vet=off -count=1 -run "$RUN" "./$PKG" >/dev/null 2>&1); PATCHED=$?
